@@ -111,6 +111,7 @@ type c14Special struct {
 	Text   string
 	Plants []string
 	Host   string // when set: the file the instances are planted in (instead of a drawn small host)
+	Host2  string // when set: a second file of another make for the same change
 }
 
 var c14Specials = []c14Special{
@@ -241,6 +242,16 @@ var c14Specials = []c14Special{
 			"c14span(c14one,\n\tc14two,\n\tc14three)", "c14span(\n\t1,\n\t2, // two\n\t3,\n)", "_ = c14span(c14f(\n\t1,\n), c14g(),\n\tc14h())", "c14span(1, 2, 3)",
 		},
 		Host: "package c14lines\n\n//line gen.y:2\nfunc c14first(n int) int {\n\tn--\n\treturn n\n}\n\n//line gen.y:9000\nfunc c14second(n int) int {\n\tn++\n\treturn n\n}\n\n// c14third is documented.\n//line other.y:1\nfunc c14third() {\n\tc14sink()\n}\n",
+	},
+	{
+		// Two import guards. One kind of file imports the first path once and
+		// the second twice (the guards hold); the other kind lacks the first
+		// import (a guard fails) although the code occurs in it.
+		Label:  "two-import-guards",
+		Text:   "@@\nvar x expression\n@@\n import \"fmt\"\n-import \"errors\"\n\n-errors.New(x)\n+fmt.Errorf(x)\n",
+		Plants: []string{"_ = errors.New(\"a\")", "c14sink(errors.New(\"b\"))", "return errors.New(\"c\")"},
+		Host:   "package c14guards\n\nimport (\n\t\"errors\"\n\terrs \"errors\"\n\t\"fmt\"\n)\n\nvar _ = errs.Is\n\nfunc c14first() error {\n\tfmt.Println()\n\treturn nil\n}\n\nfunc c14other() error {\n\treturn nil\n}\n",
+		Host2:  "package c14guards\n\nimport \"errors\"\n\ntype c14printer struct{}\n\nfunc (c14printer) Errorf(string) error { return nil }\n\nvar fmt c14printer\n\nfunc c14first() error {\n\treturn errors.New(\"z\")\n}\n\nfunc c14other() error {\n\treturn nil\n}\n",
 	},
 	{
 		// Not idempotent: applying the change twice shows in the bytes.
@@ -421,6 +432,9 @@ func c14DrawChange(rt *rapid.T, idx int) *c14Change {
 		ch = &c14Change{Label: sp.Label, Text: sp.Text, Special: sp}
 		if sp.Host != "" {
 			ch.Hosts = []string{c14Plant(rt, sp.Host, sp, lbl+"plant")}
+			if sp.Host2 != "" {
+				ch.Hosts = append(ch.Hosts, c14Plant(rt, sp.Host2, sp, lbl+"plant2"))
+			}
 		} else {
 			ch.Hosts = []string{c14Plant(rt, c14SmallHost(rt, lbl+"host"), sp, lbl+"plant")}
 		}
